@@ -19,7 +19,7 @@ fi
 if [ "${MUT_RUN_SUITE:-0}" = 1 ]; then
   (cd "$S" && GOFLAGS=-mod=mod GOPROXY=off GOSUMDB=off go test -vet=off -count=1 ./... 2>&1 | grep -v '^ok\|no test files' | head -20)
 fi
-VERIF_REPO="$S" "$(dirname "$0")/../check" "$id" "$tier" > "$S/out.txt" 2>&1
+VERIF_OUT_DIR="$S/zz_verif_out" VERIF_REPO="$S" "$(dirname "$0")/../check" "$id" "$tier" > "$S/out.txt" 2>&1
 rc=$?
 grep -E '^(VIOLATION|RESULT|INCONCLUSIVE|KNOWN)' "$S/out.txt" | head -${MUT_LINES:-6}
 grep -A2 '^VIOLATION' "$S/out.txt" | grep -v '^VIOLATION\|^--' | head -4
